@@ -9,7 +9,7 @@ import FluteModel.PathMap
     path seq  <root> <destform> <tok,tok,...>                  a history: several writers of one builder, calls in any order
 
   <root>      absolute path of the sandbox (plain ASCII, no space); the sandbox layout is fixed (see `initFs`)
-  <destform>  abs | slash | dots | rel | reldot | dot | dotdot | dotsdot | subup     how `dest` is spelled (and the cwd)
+  <destform>  abs | slash | dots | rel | reldot | dot | dotdot | dotsdot | subup | emptyrel | symdest     how `dest` is spelled (and the cwd)
   <ans>       ok:<hex of url.path()> | rwb | rcb | other      what the real `url::Url::parse` answered
   <outcome>   complete | error | interrupted
 
@@ -24,13 +24,14 @@ def strBytes (s : String) : List Nat := s.toList.map Char.toNat
 def segsOf (s : String) : RPath := ((s.splitOn "/").filter (· ≠ "")).map strBytes
 
 /-- the fixed sandbox: every ancestor of <root> is a directory; below <root>:
-    dirs outer, outer/sub, dest, dest/sub; files top.txt, outer/canary.txt, outer/sub/deep.txt, dest/old.txt,
+    dirs outer, outer/sub, dest, dest/sub, solo, solo/deep, solo/deep/dest2 (empty; + harness-side symlink link); files top.txt, outer/canary.txt, outer/sub/deep.txt, dest/old.txt,
     dest/sub/in.txt -/
 def initFs (root : RPath) : FS := fun q =>
   if q.isPrefixOf root then some .dir
   else
     let d (xs : List String) : RPath := root ++ xs.map strBytes
-    if q = d ["outer"] ∨ q = d ["outer", "sub"] ∨ q = d ["dest"] ∨ q = d ["dest", "sub"] then some .dir
+    if q = d ["outer"] ∨ q = d ["outer", "sub"] ∨ q = d ["dest"] ∨ q = d ["dest", "sub"] ∨
+        q = d ["solo"] ∨ q = d ["solo", "deep"] ∨ q = d ["solo", "deep", "dest2"] then some .dir
     else if q = d ["top.txt"] ∨ q = d ["outer", "canary.txt"] ∨ q = d ["outer", "sub", "deep.txt"] ∨
         q = d ["dest", "old.txt"] ∨ q = d ["dest", "sub", "in.txt"] then some .file
     else none
@@ -100,6 +101,10 @@ def destOf (rootS : String) (root : RPath) : String → Option (RPath × Str)
   | "dotdot" => some (root ++ [strBytes "dest", strBytes "sub"], strBytes "..")
   | "dotsdot" => some (root ++ [strBytes "dest"], strBytes "./.")
   | "subup" => some (root ++ [strBytes "dest"], strBytes "sub/..")
+  -- an EMPTY destination directory whose ancestors solo/deep hold nothing else: relative spelling, and (harness side) spelled
+  -- through the symbolic link <root>/link -> solo/deep/dest2; symlinks are outside the model, which is given the resolved name
+  | "emptyrel" => some (root, strBytes "solo/deep/dest2")
+  | "symdest" => some ([], strBytes (rootS ++ "/solo/deep/dest2"))
   | _ => none
 
 def okRoot (s : String) : Bool :=
